@@ -232,14 +232,18 @@ class Check:
             json.dump({"Replace": repl}, f)
         return p
 
-    def go_run(self, pkg, test, cases, overlay_map, timeout=900, env=None, outname="traces"):
-        """cases: list of dicts {group,cfg,ops}. Returns dict group -> list of trace shard files."""
-        ov = self.overlay(overlay_map)
+    def _go_once(self, pkg, test, cases, ov, timeout, env, outname, idx=None):
+        """one `go test` run over cases (or the subset idx); returns (process, output dir)"""
         inp = os.path.join(self.work, outname + ".in.ndjson")
         with open(inp, "w") as f:
-            for c in cases:
-                f.write(json.dumps(c, separators=(",", ":")) + "\n")
+            for i, c in enumerate(cases):
+                if idx is None or i in idx:
+                    f.write(json.dumps(c, separators=(",", ":")) + "\n")
+                else:
+                    f.write(json.dumps({"group": "skipped", "cfg": {"skip": True}, "ops": []}) + "\n")  # keeps case numbers stable
         out = self.sub(outname)
+        for fn in glob.glob(os.path.join(out, "*")):
+            os.remove(fn)
         e = dict(os.environ)
         e.update({"GOFLAGS": "", "GOPROXY": "off", "GOTOOLCHAIN": "local", "GOSUMDB": "off",
                   "VERIF_IN": inp, "VERIF_OUT": out, "VERIF_SEED": str(self.seed), "VERIF_TIER": self.tier})
@@ -247,11 +251,48 @@ class Check:
             e.update(env)
         cmd = [GO, "test", "-tags", "verif", "-overlay", ov, "-run", "^" + test + "$", "-count=1", "-vet=off",
                "-timeout", "%ds" % timeout, pkg]
-        t0 = time.time()
         p = subprocess.run(cmd, cwd=REPO, env=e, stdout=subprocess.PIPE, stderr=subprocess.STDOUT, text=True, errors="replace")
+        return p, out
+
+    def go_run(self, pkg, test, cases, overlay_map, timeout=900, env=None, outname="traces", crash_pkg=None):
+        """cases: list of dicts {group,cfg,ops}. Returns dict group -> list of trace shard files.
+        crash_pkg: if the whole process dies with a panic whose stack is in this package of the code under test, the cases
+        the workers were on are re-run one by one; those that crash again are reported as a trace with a Panic event."""
+        ov = self.overlay(overlay_map)
+        t0 = time.time()
+        p, out = self._go_once(pkg, test, cases, ov, timeout, env, outname)
+        crashed = {}
+        rounds = 0
+        while (p.returncode != 0 or not re.search(r"^ok\s", p.stdout, re.M)) and crash_pkg and "panic:" in p.stdout and crash_pkg in p.stdout and rounds < 4:
+            rounds += 1
+            suspects = set()
+            for fn in glob.glob(os.path.join(out, "progress.*")):
+                try:
+                    suspects.add(int(open(fn).read().strip()))
+                except ValueError:
+                    pass
+            found = False
+            for i in sorted(suspects - set(crashed)):
+                q, _ = self._go_once(pkg, test, cases, ov, timeout, env, outname + ".one", idx={i})
+                if q.returncode != 0 and "panic:" in q.stdout and crash_pkg in q.stdout:
+                    m = re.search(r"panic: (.*)", q.stdout)
+                    where = [ln.strip() for ln in q.stdout.splitlines() if crash_pkg in ln and "(" in ln][:3]
+                    crashed[i] = (m.group(1)[:200] if m else "panic") + " @ " + " <- ".join(where)
+                    found = True
+            if not found:
+                break
+            log("[%s] the harness process crashed; cases that crash on their own: %s" % (self.pid, sorted(crashed)))
+            p, out = self._go_once(pkg, test, cases, ov, timeout, env, outname, idx=set(range(len(cases))) - set(crashed))
         wall = time.time() - t0
         if p.returncode != 0 or not re.search(r"^ok\s", p.stdout, re.M):
             self.fail_machinery("go harness %s %s failed (rc=%d):\n%s" % (pkg, test, p.returncode, p.stdout[-6000:]))
+        for i, msg in crashed.items():   # a process-killing panic of the code under test is an observation: a trace of its own
+            g = cases[i].get("group", "crash")
+            with open(os.path.join(out, "%s.9%d.ndjson" % (g, i % 10)), "a") as f:
+                f.write(json.dumps({"ev": "Reset", "case": i + int((env or {}).get("VERIF_CASE_BASE", 0)), "cfg": cases[i].get("cfg", {})}, separators=(",", ":")) + "\n")
+                f.write(json.dumps({"ev": "Panic", "msg": msg}, separators=(",", ":")) + "\n")
+        for fn in glob.glob(os.path.join(out, "skipped.*.ndjson")):
+            os.remove(fn)
         groups = {}
         for fn in sorted(glob.glob(os.path.join(out, "*.ndjson"))):
             g = os.path.basename(fn).rsplit(".", 2)[0]
